@@ -7,7 +7,7 @@ from core import nats, natlists, opt, exc_kind, safe_check
 from props.c02 import bits
 
 PROPS = ('GambitV.Props.C05', 'GambitV.C05')
-TIE = [('GambitV.Tie.Metric', 'GambitV.Tie.Metric')]
+TIE = [('GambitV.Tie.Metric', 'GambitV.Tie.Metric'), ('GambitV.Tie.PyChunks', 'GambitV.Tie.Py')]
 RULE = ('(query signatures, reference signatures, container in {SignatureArray, SignatureArray window of a larger values array (from_arrays), SignatureList, plain list, HDF5Signatures}, dtype, '
         'chunk size in 1..n+2 or None, ref_indices (None / permutation / with repeats / subset), caller out-buffer (none / contiguous / '
         'strided view with sentinels), threads 1..16) for jaccarddist_matrix; same for jaccarddist_array and jaccarddist_pairwise '
@@ -90,6 +90,15 @@ def check(ctx, case):
 			from gambit.util.misc import chunk_slices
 			real = ';'.join(f'{s.start},{s.stop}' for s in chunk_slices(case['n'], case['size']))
 			return [f'c05.chunks {case["n"]} {case["size"]} {real}'], []
+		if kind == 'pychunks':
+			# chunk_slices with any integers (zero / negative sizes raise, zero / negative lengths give nothing) against the definition
+			# generated from the current source (tie T)
+			from gambit.util.misc import chunk_slices
+			try:
+				real = ';'.join(f'{s.start},{s.stop}' for s in chunk_slices(case['n'], case['size']))
+			except ValueError:
+				real = '!ValueError'
+			return [f'pyg.chunks {case["n"]} {case["size"]} {real}'], []
 		if kind == 'reuse':
 			# the same plain list object passed twice, one element replaced in place in between: the second result must reflect the new contents
 			ss, ss2 = case['sigs'], case['sigs2']
@@ -271,6 +280,9 @@ def run(ctx):
 		for n in range(0, 14):
 			for size in range(1, 16):
 				sub({'kind': 'chunks', 'n': n, 'size': size}, 'chunks')
+		for n in range(-2, 9):
+			for size in range(-2, 11):
+				sub({'kind': 'pychunks', 'n': n, 'size': size}, 'chunks-any-int')
 		# systematic: every chunk size 1..n+2 and None, each container
 		for rc in rconts:
 			for n in (1, 3, 5):
